@@ -91,6 +91,10 @@ class Sched:
         self.max_steps = max_steps
         self.abort = False
         self.cache_lock = None
+        self.where = [None] * nthreads  # per thread: names of the cacheutils frames on its stack at its pending
+        #                                 instruction (innermost first); lets a chooser pre-empt INSIDE a given method
+        self.track_stack = False
+        self.state_funcs = STATE_FUNCS  # helpers that must only run under the lock (the translator's list, if given)
 
     def yield_point(self, tid):
         if self.abort:
@@ -103,13 +107,21 @@ class Sched:
     def tracer(self, tid):
         def local(frame, event, arg):
             if event == 'opcode':
+                if self.track_stack:
+                    names = []
+                    f = frame
+                    while f is not None and len(names) < 8:
+                        if f.f_code.co_filename == self.cu_file:
+                            names.append(f.f_code.co_name)
+                        f = f.f_back
+                    self.where[tid] = names
                 self.yield_point(tid)
             return local
 
         def glob(frame, event, arg):
             co = frame.f_code
             if co.co_filename == self.cu_file:
-                if co.co_name in STATE_FUNCS and self.cache_lock is not None:
+                if co.co_name in self.state_funcs and self.cache_lock is not None:
                     if self.cache_lock.owner != tid:
                         self.lockset_violations.append((tid, co.co_name))
                 frame.f_trace_opcodes = True
@@ -118,12 +130,16 @@ class Sched:
         return glob
 
 
-def run(cu, programs, choose, make_cache, max_steps=200000):
+def run(cu, programs, choose, make_cache, max_steps=200000, state_funcs=None):
     """programs: list (one per thread) of lists of callables cache -> value.
     choose(step, runnable) -> tid.  Returns dict with cache, results, schedule, acquire_log, ..."""
     n = len(programs)
     s = Sched(n, choose, cu.__file__, max_steps)
     SLock.sched = s
+    if state_funcs:
+        s.state_funcs = set(state_funcs)
+    if hasattr(choose, 'attach'):      # choosers that look at the threads' positions (focus schedules)
+        choose.attach(s)
     old_rlock = cu.RLock
     cu.RLock = SLock
     try:
